@@ -41,6 +41,7 @@ EXPRS = ['1', '0', '-1', '2.5', '1E30', '"s"', '""', 'i%', 'l&', 's!', 'd#', 't$
          'MID$(t$, 1)', 'MID$(t$)', 'MID$(1, 1, 1)', 'LEFT$(t$, "a")', 'INSTR(t$, t$)', 'INSTR(1, t$, t$)', 'INSTR(t$)', 'UBOUND(arr)', 'UBOUND(i%)', 'UBOUND(arr, 5)', 'LBOUND(r)', 'VAL(1)', 'VAL(t$)', 'STR$("a")', 'STR$(1)',
          'INT("a")', 'ABS(t$)', 'SGN(r)', 'CINT(t$)', 'CLNG(1E30)', 'RND', 'RND(1)', 'RND("a")', 'TIMER', 'TIMER(1)', 'INKEY$', 'PEEK(1)', 'PEEK(t$)', 'SPACE$(t$)', 'STRING$(1)', 'STRING$(2, t$)', 'STRING$(2, 65)',
          'LCASE$(1)', 'UCASE$(t$)', 'LTRIM$(1)', 'ERR', 'ERL', 'ERR(1)', 'i%%', 'i%.a', 't$(1)', '1 2', '', ')', '(', ',', 'THEN', 'TO', 'i% +', '+', '"unterminated', '"caf\u00e9"', '1E38 * 1E38 - 1E38 * 1E38', '0 * (1E38 * 1E38)', '1 / 0', '1D308 * 10#',
+         '"s" + 1', '1 + "s"', '-"s"', 'NOT "s"', '"a" < 1', '"a" AND 1', '((1D308 * 10) - (1D308 * 10)) MOD 2', 'NOT ((1D308 * 10) - (1D308 * 10))', '((1D308 * 10) - (1D308 * 10)) \\ 2', '1 AND ((1D308 * 10) - (1D308 * 10))',
          '-32768', '-32768%', '32768', '2147483648', '-2147483648', '&H8000', '&HFFFFFFFF', '&H100000000', '&O777777', '.', '1.', '.5E', '1E', '5#!']
 LVS = ['i%', 'l&', 's!', 'd#', 't$', 'r', 'r.a', 'r.b', 'r.zz', 'arr', 'arr(1)', 'arr(1, 2)', 'arr(t$)', 'sarr$(1)', 'm2(1, 1)', 'ra(1)', 'ra(1).a', 'ra(1).b', 'ra.a', 'undef', 'undef(1)', 'f1%', 'p0', 'lbl', '1', '"s"', 'i% + 1', '', 'RND', 'TIMER', 'ERR', 'LEN(t$)']
 LABELS = ['lbl', 'nodata', 'nosuch', '10', '99999', '0', '1', '-1', 'p0', 'i%', '', '"l"']
@@ -54,9 +55,10 @@ TEMPLATES = [
  'CALL p0', 'CALL p0({e})', 'CALL p1', 'CALL p1({e})', 'CALL p1({e}, {e})', 'CALL p2({e}, {e})', 'CALL pa({e})', 'CALL pa(arr())', 'CALL pa(sarr$())', 'CALL pa(m2())', 'CALL pa(ra())', 'CALL pr({e})', 'CALL pr(r)', 'CALL pr(ra(1))', 'p1 {e}', 'p2 {e}, {e}', 'p0 {e}', 'CALL nosuch', 'CALL nosuch({e})', 'CALL f1%(1)', 'CALL lbl', 'CALL i%',
  'LOCATE {e}', 'LOCATE {e}, {e}', 'LOCATE , {e}', 'LOCATE {e}, {e}, {e}', 'LOCATE {e}, {e}, {e}, {e}, {e}', 'LOCATE , , {e}', 'LOCATE', 'LOCATE ,', 'LOCATE {e}, {e}, {e}, {e}, {e}, {e}', 'COLOR {e}', 'COLOR {e}, {e}', 'COLOR , {e}', 'COLOR {e}, {e}, {e}', 'COLOR', 'COLOR ,',
  'SOUND {e}, {e}', 'SOUND {e}', 'BEEP {e}', 'CLS {e}', 'CLS', 'SCREEN {e}', 'SCREEN {e}, {e}', 'SCREEN', 'WIDTH {e}, {e}', 'WIDTH {e}', 'WIDTH', 'VIEW PRINT {e} TO {e}', 'VIEW PRINT', 'VIEW PRINT {e}', 'PLAY {e}', 'POKE {e}, {e}', 'POKE {e}', 'DEF SEG = {e}', 'DEF SEG', 'RANDOMIZE {e}', 'RANDOMIZE',
- 'DIM n1({e})', 'DIM n2({e} TO {e})', 'DIM n3({e}, {e}) AS STRING', 'DIM n4 AS {e}', 'DIM n5 AS nosuchtype', 'DIM n6(1) AS rt', 'DIM arr(5)', 'DIM i%', 'DIM i% AS LONG', 'DIM n7%(1) AS LONG', 'DIM SHARED n8', 'DIM n9, n9', 'DIM', 'DIM n10(1 TO)', 'DIM n11(-1)', 'DIM n12(5 TO 1)', 'DIM n13(i%)', 'DIM n14(i% TO 3)', 'DIM n15(1, 2, 3, 4, 5, 6, 7, 8, 9)', 'REDIM n16(3)', 'ERASE arr',
- 'CONST c1 = {e}', 'CONST c2% = {e}', 'CONST i% = 1', 'CONST c3 = c3', 'CONST c4 = 1, c5 = 2', 'CONST', 'CONST c6', 'CONST c7 = 1\nc7 = 2', 'CONST c8 = 1\nDIM c8',
- 'READ {lv}', 'READ {lv}, {lv}', 'READ', 'RESTORE {l}', 'RESTORE', 'DATA {e}', 'DATA', 'DATA ,,,', 'DATA "a', 'INPUT {lv}', 'INPUT {e}; {lv}', 'INPUT {e}, {lv}, {lv}', 'INPUT ; {e}; {lv}', 'INPUT', 'LINE INPUT {lv}', 'LINE INPUT {e}; {lv}', 'LINE INPUT',
+ 'DIM n1({e})', 'DIM n2({e} TO {e})', 'DIM n3({e}, {e}) AS STRING', 'DIM n4 AS {e}', 'DIM n5 AS nosuchtype', 'DIM n6(1) AS rt', 'DIM arr(5)', 'DIM i%', 'DIM i% AS LONG', 'DIM n7%(1) AS LONG', 'DIM SHARED n8', 'DIM n9, n9', 'DIM', 'DIM n10(1 TO)', 'DIM n11(-1)', 'DIM n12(5 TO 1)', 'DIM n13(i%)', 'DIM n14(i% TO 3)', 'DIM n15(1, 2, 3, 4, 5, 6, 7, 8, 9)', 'REDIM n16(3)', 'ERASE arr', 'DIM big1(70000)', 'DIM SHARED big2(70000)', 'DIM big3(300, 300) AS DOUBLE', 'DIM big4(70000) AS rt', 'DIM big5(2147483647)',
+ 'CONST c1 = {e}', 'CONST c9 = "s" + 1', 'CONST c10 = -"s"', 'CONST c11 = NOT "s"', 'CONST c12 = ((1D308 * 10) - (1D308 * 10)) MOD 2', 'CONST c13 = 1E38 * 1E38', 'CONST c14$ = 1', 'CONST c15% = "s"',
+ 'd# = ((1D308 * 10) - (1D308 * 10)) MOD 2', 'i% = NOT ((1D308 * 10) - (1D308 * 10))', 'PRINT ((1D308 * 10) - (1D308 * 10)) AND 1', 'PRINT 1 \\ ((1D308 * 10) - (1D308 * 10))', 'CONST c2% = {e}', 'CONST i% = 1', 'CONST c3 = c3', 'CONST c4 = 1, c5 = 2', 'CONST', 'CONST c6', 'CONST c7 = 1\nc7 = 2', 'CONST c8 = 1\nDIM c8',
+ 'READ {lv}', 'READ {lv}, {lv}', 'READ', 'RESTORE {l}', 'RESTORE', 'DATA {e}', 'DATA', 'DATA ,,,', 'DATA "a', 'INPUT {lv}', 'INPUT {e}; {lv}', 'INPUT {e}, {lv}, {lv}', 'INPUT ; {e}; {lv}', 'INPUT', 'INPUT , {lv}', 'INPUT ; ; {lv}', 'INPUT ; , {lv}', 'INPUT {e} {lv}', 'INPUT {e};', 'INPUT ;', 'LINE INPUT {lv}', 'LINE INPUT {e}; {lv}', 'LINE INPUT',
  'GOTO {l}', 'GOSUB {l}', 'RETURN', 'RETURN {l}', 'ON ERROR GOTO {l}', 'ON ERROR RESUME NEXT', 'ON ERROR', 'ON ERROR GOTO', 'RESUME', 'RESUME NEXT', 'RESUME {l}', 'ERROR {e}', 'ON {e} GOTO lbl, lbl', 'ON {e} GOSUB lbl',
  'lbl:', 'lbl: PRINT 1', '10 PRINT 1\n10 PRINT 2', 'nodata: PRINT 1', '5 5 PRINT', 'END', 'STOP', 'SYSTEM', 'END {e}', 'DEFINT {e}', 'DEFINT A', 'DEFINT A-', 'DEFINT Z-A', 'DEFSTR A-Z\nx = 1', 'DEFINT A-Z\nx = "s"', 'OPTION BASE 1', 'DECLARE SUB p0 ()', 'DECLARE FUNCTION f1% (a%)', 'DECLARE SUB nosuch2 ()',
  'TYPE t2\nEND TYPE', 'TYPE t3\n x AS INTEGER\n x AS LONG\nEND TYPE', 'TYPE t4\n x AS nosuch\nEND TYPE', 'TYPE t5\n x AS t5\nEND TYPE', 'TYPE rt\n a AS INTEGER\nEND TYPE', 'TYPE t6\n PRINT 1\nEND TYPE', 'TYPE t7\n x(3) AS INTEGER\nEND TYPE', 'TYPE t8\n x AS STRING * 5\nEND TYPE', 'TYPE\nEND TYPE',
@@ -64,6 +66,31 @@ TEMPLATES = [
  'FUNCTION q10\nq10 = "s"\nEND FUNCTION', 'FUNCTION q11$\nq11$ = 1\nEND FUNCTION', 'FUNCTION q12% (a%)\nEND FUNCTION\nPRINT q12%', 'FUNCTION q13\nEXIT SUB\nEND FUNCTION', 'FUNCTION q14\nq14 = q14(1)\nEND FUNCTION', 'FUNCTION i%\nEND FUNCTION', 'SUB f1%\nEND SUB',
  "REM {e}", "' {e}", 'PRINT 1 \' c', 'PRINT 1: : PRINT 2', ':', ': :', '::PRINT 1', 'PRINT 1 :', 'LET', 'LET = 1', '= 1', '1 = 1', '{e}', '{e} {e}', '{lv}', '{lv}({e}) = {e}', '{lv}.a = {e}', '{lv}.a.b = {e}',
 ]
+# whole programs whose shape no template placement produces (use before definition, definitions after procedures, limits)
+WHOLE = [
+ 'CALL s\nEND\nSUB s\nPRINT c$\nEND SUB\nCONST c$ = "abc"\n',
+ 'CALL s\nEND\nSUB s\nPRINT c%\nx = c% + 1\nEND SUB\nCONST c% = 7\n',
+ 'PRINT f$\nEND\nFUNCTION f$\nf$ = k$ + k$\nEND FUNCTION\nCONST k$ = "q"\n',
+ 'PRINT c$\nCONST c$ = "abc"\nPRINT c$\n',
+ 'CALL s\nEND\nSUB s\nPRINT t.a\nEND SUB\nTYPE tt\n a AS INTEGER\nEND TYPE\nDIM SHARED t AS tt\n',
+ 'CALL s\nEND\nSUB s\nPRINT sh(1)\nEND SUB\nDIM SHARED sh(3)\n',
+ 'CALL s\nSUB s\nDIM q(300, 300) AS DOUBLE\nEND SUB\n',
+ 'CALL s\nSUB s STATIC\nDIM q(300, 300) AS DOUBLE\nEND SUB\n',
+ 'DATA ' + ','.join(['1'] * 33000) + '\n',
+ 'PRINT "' + 'x' * 70000 + '"\n',
+ '\n'.join(f'PRINT "s{i}"' for i in range(300)) + '\n',
+ 'x = 1\n' * 3000,
+ 'GOTO l2999\n' + '\n'.join(f'l{i}: x = {i}' for i in range(3000)) + '\n',
+]
+
+
+def single_line_if_forms(t):
+    """a template written inside a single-line IF: its first line after THEN, its last line after ELSE"""
+    lines = t.split('\n')
+    return ['IF i% THEN ' + lines[0], 'IF i% THEN PRINT 1 ELSE ' + lines[-1], 'IF i% THEN PRINT 1: ' + lines[0] + ' ELSE ' + lines[-1],
+            'IF i% THEN IF l& THEN ' + lines[-1]]
+
+
 def fill(rng, t):
     out = t
     while '{e}' in out: out = out.replace('{e}', rng.choice(EXPRS), 1)
